@@ -308,6 +308,33 @@ func VH_Reassembler() {
 		r.PushMessage(msg)
 		m.afterCall(vOpPush)
 	}
+	if sc := vParam("script", -1); sc >= 0 {
+		// a fixed, longer history: lower-case letter = SYSCALL record of sequence base+(letter-'a'),
+		// upper-case = its EOE, 'm' = Maintain; events that collect many records, interleaved
+		script := []string{"ab" + "aaaaaaaaaa" + "bb", "abc" + "aaaaaaaaa" + "bbbbbbbbb" + "A" + "cB", "aaaaaaaaaaaaaaaaaaaa", "ab" + "aaaaaaaaaa" + "B" + "bb" + "A"}[sc]
+		for i := 0; i < len(script); i++ {
+			ch := script[i]
+			switch {
+			case ch == 'm':
+				m.beforeCall()
+				r.Maintain()
+				m.afterCall(vOpMaintain)
+			default:
+				typ := uint16(auparse.AUDIT_SYSCALL)
+				off := uint32(ch - 'a')
+				if ch >= 'A' && ch <= 'Z' {
+					typ, off = uint16(auparse.AUDIT_EOE), uint32(ch-'A')
+				}
+				seq := m.base + off
+				msg := &auparse.AuditMessage{RecordType: auparse.AuditMessageType(typ), Sequence: seq}
+				m.beforeCall()
+				m.notePush(msg, typ, seq)
+				r.PushMessage(msg)
+				m.afterCall(vOpPush)
+			}
+		}
+		k = 0
+	}
 	forcePush := vParam("forcepush", 0)
 	for i := 0; i < k; i++ {
 		op := vOpPush
